@@ -31,7 +31,8 @@ ANCHORS = ['manifest:ManifestFile.load', 'openpgp:SystemGPGEnvironment.verify_fi
            'openpgp:SystemGPGEnvironment._spawn_gpg']
 REQUIRED = ['manifest:ManifestFile.load', 'seq:accepted-signed', 'seq:rejected',
             'mock_verify_calls', 'gpg:accepted', 'gpg:rejected',
-            'gpg:rejected-on-reused-object', 'gpg:resign_cases', 'gpg:filejunk_cases']
+            'gpg:rejected-on-reused-object', 'gpg:resign_cases', 'gpg:filejunk_cases',
+            'longline_cases']
 ASSUMPTIONS = ['(a) uses a mock OpenPGP environment: the framing logic is what is '
                'decided there; (b) is relative to the installed GnuPG',
                'armor-like lines inside the armor-header section, and an END line '
@@ -100,6 +101,8 @@ def units(tier, seed):
         u.append({'k': 'resign', 'i': i})
     for i in range(32):
         u.append({'k': 'filejunk', 'i': i})
+    for i in range(4 if tier == 'quick' else 16):
+        u.append({'k': 'longline', 'i': i})
     return u
 
 
@@ -345,6 +348,9 @@ def run_unit(u, ctx):
     elif u['k'] == 'filejunk':
         from vf.checks import c04gpg
         c04gpg.run_filejunk(u, ctx)
+    elif u['k'] == 'longline':
+        from vf.checks import c04gpg
+        c04gpg.run_longline(u, ctx)
     else:
         run_gpg(u, ctx)
 
